@@ -161,4 +161,34 @@ CHECKS = {
              "idle state and refresh gaps must not exceed the interval.",
         note=_TB,
     ),
+    "C15": dict(
+        engine="E1 replay-BFS", level="model_checking", design_ref="5/C15",
+        technique="explicit-state BFS over queue/burst/stop/start/clock histories on the real announcer send queues; per-destination FIFO + deadline model with tagged entries",
+        text="Sequences of queue requests (single entries and bursts of 16/17/40 with distinct options) for the multicast "
+             "group and two unicast peers, announcer stop/start (whose own StopOffers/Offers travel in the same queues), "
+             "clock moves to half the window, to the window close (request before / after the timer of the same "
+             "iteration) and just before it; collection timeout c and 0. Every entry is tagged and followed from "
+             "queue_send to the decoded wire: exactly once, right peer, FIFO per peer, never later than the timeout.",
+        note=_TB,
+    ),
+    "C17": dict(
+        engine="E1 replay-BFS", level="model_checking", design_ref="5/C17",
+        technique="explicit-state BFS to closure over subscribe/unsubscribe/set-value/notify/bad-subscription/cyclic-tick histories on the real SimpleService + SimpleEventgroup; reference subscriber set + per-destination counter",
+        text="All sequences of subscribe / unsubscribe from three endpoints (IPv4, IPv6, IPv4 other port), value updates, "
+             "notify_once for every subset of events, refused subscriptions (no endpoint, two endpoints, unknown "
+             "eventgroup) and cyclic rounds (calls before / after the timer of the same iteration), with bounded "
+             "two-calls-in-one-iteration deviations; three configurations explored to closure. Every datagram is decoded "
+             "independently: destination set, events, payload (current value), header fields, per-destination session ids.",
+        note=_TB + "; getaddrinfo answers immediately (numeric)",
+    ),
+    "C18": dict(
+        engine="E1 replay-BFS", level="model_checking", design_ref="5/C18",
+        technique="per-stream state-space exploration: every (prefix, EOF) state by a single chunk, every two-chunk path into it must reach the same canonical reader+task state (induction over chunk count); oracle = the library's datagram parse loop",
+        text="For 85 message sequences (0..3 messages, payloads {0,1,2,17}) with all cut positions, 33 streams with one "
+             "corrupted header field (version, type, return code, length 0..7) in each message position and a long "
+             "8-message stream (payloads to 4096, boundary windows + grid): every prefix state, EOF at every position, and "
+             "every ordered pair of cuts; a real asyncio.StreamReader on the virtual loop is fed with feed_data/feed_eof.",
+        note=_TB + "; the canonical state is a complete state vector of reader and reading task, so pairwise path "
+             "independence extends to all chunkings by induction",
+    ),
 }
